@@ -165,7 +165,11 @@ Fixpoint evict (fuel : nat) (limit : N) (s : store) : store :=
       else s
   end.
 
-(* Cache::set through the policy *)
+(* Cache::set through the policy: evict; fetch_add(len); store; then fetch_sub of
+   what the store reports — the size of the record it replaced (single-threaded:
+   the record under the key just before the call) or, when it refuses, len again.
+   On a u64 counter adding and subtracting the same len is the identity, so the
+   refusal leaves the usage as it was; Model/PolConc.v has the individual steps. *)
 Definition set (k : bytes) (r : record) (s : store) : store * result N :=
   match s_limit s with
   | None => inner_set k r s
@@ -195,12 +199,18 @@ Definition flush_record (now delay : N) (r : record) : record :=
   then mkRec now (r_cas r) (r_flags r) delay (r_val r)
   else r.
 
-(* Cache::flush through the policy *)
+(* Cache::flush through the policy: a delayed flush re-dates; an immediate one
+   removes record by record through remove_if, un-accounting each (its scan accepts
+   every key: what the oracle holds for it is skipped) *)
 Definition flush (delay : N) (s : store) : store :=
   if 0 <? delay then
     with_mem s (map (fun kr => (fst kr, flush_record (s_now s) delay (snd kr))) (s_mem s))
   else
     match s_limit s with
-    | Some _ => with_usage (with_mem s []) 0
+    | Some _ =>
+        with_oracle
+          (with_usage (with_mem s [])
+             (fold_left (fun u kr => sub64w u (rec_len (snd kr))) (s_mem s) (s_usage s)))
+          (skipn (length (s_mem s)) (s_oracle s))
     | None => with_mem s []
     end.
